@@ -1,6 +1,7 @@
 import PfModel.DriverVal
 import PfModel.Model.SubPipe
 import PfModel.Model.SubPipeDecide
+import PfModel.Model.SubPipeScope
 /-! Driver for C11 (`pipe.sub`, `pipe.call`, `map.sub`): subpipeline selection (repaired and pinned variant), calling the
 partial pipeline, and `map(output_names=…, auto_subpipeline=…)`. -/
 open Lean PF PF.Drv PF.Sub
@@ -48,6 +49,13 @@ def putOutcome : Except Pipe.Err Pipe.Outcome → Json
 
 def putCall (c : Map.Call) : Json := jArr [jStr c.name, putKw c.args]
 
+/-- one item of an inputs dict in any spelling: `[name, value]` or `[scope, {"scope": [[name, value], …]}]` -/
+def getKwArg (j : Json) : R (String × Rw.KwArg) := do
+  let (k, v) ← asPair asStr pure j
+  match fld? v "scope" with
+  | some items => return (k, .scope (← getKw items))
+  | none => return (k, .val (← getVal v))
+
 def optNames (a : Json) (k : String) : R (Option (List String)) := optF (asList asStr) a k
 
 def handle (m : String) (a : Json) : R Json := do
@@ -75,7 +83,11 @@ def handle (m : String) (a : Json) : R Json := do
     return jObj [("sub", sub), ("full", full), ("spec", spec)]
   | "map.sub" =>
     let fs ← listF getMFunc a "funcs"
-    let inputs ← getKw (← fld a "inputs")
+    -- "given": the inputs as the caller spelled them (scope dictionaries allowed): `flatInputs` (`prepare_run` flattens first), so that what
+    -- follows IS `mapSubScoped`; else "inputs": flat
+    let inputs ← match ← optF (asList getKwArg) a "given" with
+      | some g => pure (flatInputs fs g)
+      | none => getKw (← fld a "inputs")
     let internal := (← optF (asList (asPair asStr (asList asNat))) a "internal").getD []
     let S ← optNames a "outputs"
     let auto := (← optF asBool a "auto").getD false
@@ -90,7 +102,7 @@ def handle (m : String) (a : Json) : R Json := do
         | .ok (_, r') => (r'.outputs.map fun kv => (kv.1, (putVal kv.2).compress)) == (r.outputs.map fun kv => (kv.1, (putVal kv.2).compress))
         | .error _ => false
       return jObj [("now", jObj [("kept", jList jStr (sub.map (·.name))), ("outputs", putKw r.outputs), ("calls", jList putCall r.calls),
-                                  ("spec_agrees", jBool specOk)]),
+                                  ("spec_agrees", jBool specOk), ("flat", jList jStr (akeys inputs))]),
                    ("legacy", legacy)]
   | "map.lenient" =>
     -- round 3: the answering behaviour for an over-provided request (`mapSubLenient`, = `mapSub` when nothing is over-provided)
